@@ -3,7 +3,7 @@ CONSTANTS
   Tokens = {"a", "b"}
   MaxSrc = 2
   MaxStages = 2
-  Kinds = {"mapx", "fn", "dup", "tac", "errtee", "cast", "ifa", "sw", "var", "tryf", "trys", "tpf"}
+  Kinds = {"mapx", "fn", "dup", "tac", "errtee", "cast", "ifa", "sw", "var", "tryf", "trys", "tpf", "ffif", "fsif"}
   Cap = 1
 INVARIANTS Deterministic NoDeadlock OutputIsPrefix
 POSTCONDITION Emit
